@@ -12,7 +12,7 @@ EXPLANATION = (
     "neither table knows fails closed; (W1) TypeEntryDetails::Box is constructed at exactly one site whose only caller is the "
     "cycle breaker, so boxes come only from cycle cutting; (W2) every ingestion function that registers references runs the "
     "cycle breaker over the whole batch range after conversion and before finalisation on the path to Ok; (W3) the DFS "
-    "bookkeeping is paired: the snip test is membership in the active set, nodes are added to the active set when pushed and "
+    "bookkeeping is paired: the snip test is membership in the active set, nodes are added to the active set when pushed — on every path to the push, not only for some class of node (anonymous nodes are shared, so a cycle can close on one) and "
     "removed when popped, replaced children are the snipped ones; "
     "the children that are boxed are exactly the partition's true side (resolved by binding, so a shadowing filter is seen)."
     " (W3, marking) `visited.insert` marks only the node being expanded, never a child while its parent's child list is filtered."
